@@ -29,6 +29,8 @@ KNOWN_TAINTS = {
     'dw:fixed': 'pit-excluded-layer-not-frozen',
     'excluded-consumer': 'pit-excluded-layer-not-frozen',
     'dw:cat': 'pit-dw-after-concat-no-masker',
+    # MPS, per-channel search with the 0-bit option
+    'dw:input': 'mps-input-connected-dw-prunable',
 }
 TAINT_EXCUSABLE = {'mask-consistency', 'export-crash', 'exported-forward-crash', 'output-mismatch',
                    'pit-forward-crash', 'cost-crash', 'unusable-after-conversion'}
@@ -47,3 +49,67 @@ def _taint_pred(key):
 
 for _k in set(KNOWN_TAINTS.values()):
     PREDICATES[_k] = _taint_pred(_k)
+
+
+# ------------------------------------------------------------------------------------------------
+# C20: precision refinement (plinio/methods/mps/utils.py), four mechanisms
+# ------------------------------------------------------------------------------------------------
+def _d(v):
+    return v.get('detail') or {}
+
+
+@predicate('reassign-steal-count')
+def _reassign_steal(v):
+    """_reassign_precisions given valid targets: a precision's top-`target` scoring channels
+    include a channel arg-max-assigned to another precision (taken regardless of its current
+    precision), so some count is not met / a channel is left unassigned."""
+    d = _d(v)
+    if v['monitor'] == 'reassign-counts':
+        return bool(d.get('targets_valid')) and bool(d.get('topk_steals'))
+    if v['monitor'] == 'layer-counts':
+        return bool(d.get('targets_valid')) and bool(d.get('reassign_count_mismatch'))
+    if v['monitor'] == 'cost-increase':
+        return d.get('reassign_count_mismatch_layers', 0) > 0 and \
+            d.get('layers_with_invalid_targets', 0) == 0 and \
+            d.get('layers_with_permuted_counts', 0) == 0
+    return False
+
+
+@predicate('refinement-float-drift-targets')
+def _float_drift(v):
+    """optimize_prec_assignment moves fractions in float steps inside `while x > 0`: rounding
+    leaves a tiny positive remainder, one more step is taken and the chosen counts contain a
+    negative entry / do not sum to the number of channels."""
+    d = _d(v)
+    if v['monitor'] == 'reassign-counts':
+        return d.get('targets_valid') is False
+    if v['monitor'] in ('layer-counts', 'chosen-counts-not-promotion', 'channel-demotion'):
+        return d.get('targets_valid') is False
+    if v['monitor'] == 'cost-increase':
+        return d.get('layers_with_invalid_targets', 0) > 0
+    return False
+
+
+@predicate('refinement-unsorted-precisions-permuted')
+def _unsorted_perm(v):
+    """optimize_prec_assignment with a precision tuple that is not in ascending order applies the
+    sorting permutation instead of its inverse (and also to the never-sorted original array): the
+    chosen counts are a permutation of the original ones, i.e. channels are demoted."""
+    d = _d(v)
+    if v['monitor'] in ('chosen-counts-not-promotion', 'channel-demotion', 'layer-counts'):
+        return bool(d.get('unsorted_precisions')) and d.get('targets_valid') is not False and \
+            (d.get('chosen_is_promotion') is False)
+    if v['monitor'] == 'cost-increase':
+        return d.get('layers_with_permuted_counts', 0) > 0 and \
+            d.get('layers_with_invalid_targets', 0) == 0
+    return False
+
+
+@predicate('reassign-topk-demotion')
+def _topk_demotion(v):
+    """the chosen counts are a valid promotion, but the reassignment step picks, per precision, the
+    top-scoring channels regardless of their current precision: individual channels end at a lower
+    bit-width than before."""
+    d = _d(v)
+    return v['monitor'] == 'channel-demotion' and d.get('by_reassignment_step') is True and \
+        d.get('targets_valid') is True and d.get('chosen_is_promotion') is True
